@@ -74,24 +74,56 @@ def _winners(props, what):
 
 
 def fold_rust(idx: Index, spec, structs, sname):
+    spec, structs = lattice()
+    before = _snapshot(structs)
     m = idx.get(P_RC)
     it = Interp(m.tree, name=P_RC)
     it.globals["model"] = ModuleRef("model", attrs={})
-    it.globals["copy"] = ModuleRef("copy", attrs={"deepcopy": ("host", _deepcopy), "copy": ("host", lambda x: x)})
+    it.globals["copy"] = ModuleRef("copy", attrs={"deepcopy": ("host", _deepcopy), "copy": ("host", _shallow)})
     f = it.globals.get("get_extended_properties")
     if not isinstance(f, Closure):
         raise AnalysisError(f"{P_RC}: get_extended_properties not found")
-    return _winners(f(structs[sname], spec), f"{P_RC}:get_extended_properties")
+    r = _winners(f(structs[sname], spec), f"{P_RC}:get_extended_properties")
+    _note_mutation(P_RC, sname, structs, before)
+    return r
+
+
+MUTATED: list = []      # (implementation, structure) pairs whose fold changed the model it was given
+
+
+def _snapshot(structs):
+    return {n: [(p.fields["name"], p.fields.get("owner")) for p in s.fields["properties"]] for n, s in structs.items()}
+
+
+def _note_mutation(what, sname, structs, before):
+    if _snapshot(structs) != before:
+        MUTATED.append((what, sname))
 
 
 def fold_plain(idx: Index, rel, spec, structs, sname):
+    spec, structs = lattice()       # every fold gets its own model: an implementation that edits it must not affect the next
+    before = _snapshot(structs)
     m = idx.get(rel)
     it = Interp(m.tree, name=rel)
     it.globals["copy_property"] = ("host", lambda p: p)
+    it.globals["copy"] = ModuleRef("copy", attrs={"deepcopy": ("host", _deepcopy), "copy": ("host", _shallow)})
     f = it.globals.get("get_all_properties")
     if not isinstance(f, Closure):
         raise AnalysisError(f"{rel}: get_all_properties not found")
-    return _winners(f(structs[sname], spec), f"{rel}:get_all_properties")
+    r = _winners(f(structs[sname], spec), f"{rel}:get_all_properties")
+    _note_mutation(rel, sname, structs, before)
+    return r
+
+
+def _shallow(x):
+    if isinstance(x, list):
+        return list(x)
+    if isinstance(x, dict):
+        return dict(x)
+    if isinstance(x, Record):
+        r = Record(x.cls_name, dict(x.fields), x.classes)
+        return r
+    return x
 
 
 def fold_python(idx: Index, spec, structs, sname):
@@ -105,8 +137,10 @@ def fold_python(idx: Index, spec, structs, sname):
     for need in ("_add_structure", "_get_dependent_types"):
         if need not in methods:
             raise AnalysisError(f"{P_PYUTILS}: TypesCodeGenerator.{need} not found")
+    spec, structs = lattice()
+    before = _snapshot(structs)
     it = Interp(m.tree, name=P_PYUTILS)
-    it.globals["copy"] = ModuleRef("copy", attrs={"deepcopy": ("host", lambda x: x), "copy": ("host", lambda x: x)})
+    it.globals["copy"] = ModuleRef("copy", attrs={"deepcopy": ("host", _deepcopy), "copy": ("host", _shallow)})
     captured = {}
 
     def gen_props(class_name, properties, indent):
@@ -136,6 +170,7 @@ def fold_python(idx: Index, spec, structs, sname):
         raise AnalysisError(f"{P_PYUTILS}: _add_structure raises {e.exc_name} when folded on the synthetic lattice")
     if sname not in captured:
         raise AnalysisError(f"{P_PYUTILS}: _add_structure did not reach _generate_properties for {sname}")
+    _note_mutation(P_PYUTILS, sname, structs, before)
     return _winners(captured[sname], f"{P_PYUTILS}:_add_structure")
 
 
